@@ -25,7 +25,7 @@ COMPONENTS = {"real": ["setigen.cadence.Cadence / OrderedCadence", "setigen.fram
 ASSUMPTIONS = ["slice assignment is not generated (the statement does not cover it)",
                "where the insertion position lies beyond the order string the operation may raise-and-not-add or add",
                "after an operation that raised, the label of the frame it was given is re-read rather than predicted"]
-PROBES = ["cadence_built_from_cadence", "rejected_incompatible", "rejected_nonframe", "index_out_of_range", "negative_index", "insert_beyond_len",
+PROBES = ["constructed_with_t_overwrite", "cadence_built_from_cadence", "rejected_incompatible", "rejected_nonframe", "index_out_of_range", "negative_index", "insert_beyond_len",
           "label_assigned", "label_sticky", "by_label_checked", "set_order_applied", "extend_partial", "slice_selection",
           "index_array_selection", "empty_cadence_op"]
 
@@ -94,6 +94,8 @@ def generate(rng, tier):
     return {"seams": {"clock_origin": 1.7e9, "clock_jitter_seed": rng.randrange(1 << 20),
                       "entropy_salt": rng.randrange(1 << 20), "scratch": "c18"},
             "ordered": ordered, "order": order, "pool": pool, "init": init, "ops": ops,
+            # constructor keywords: the slew time, and whether start times are laid out afresh at construction
+            "ctor": ({"t_slew": rng.choice([0, 10.0, 30.5]), "t_overwrite": rng.random() < 0.6} if rng.random() < 0.35 else {}),
             "geom": {"fchans": rng.choice([4, 8]), "df": rng.choice([1.0, 2.7939677238464355]), "dt": rng.choice([1.0, 18.253611008]),
                      "fch1": rng.choice([6e9, 1.5e9]), "ascending": rng.random() < 0.5}}
 
@@ -263,7 +265,10 @@ def execute(sc, ctx):
             beyond = True
         tmp.append(v)
     try:
-        cad = cls(list(init_items), order=order) if ordered else cls(list(init_items))
+        ckw = dict(sc.get("ctor", {}))
+        if ckw.get("t_overwrite"):
+            ctx.hit("constructed_with_t_overwrite")
+        cad = cls(list(init_items), order=order, **ckw) if ordered else cls(list(init_items), **ckw)
         raised = None
     except Exception as e:
         raised = e
@@ -275,7 +280,7 @@ def execute(sc, ctx):
         for v in init_items:
             if is_frame(v):
                 labels[id(v)] = "?" if ordered and label_of(v) is not None else labels.get(id(v)) if label_of(v) is not None else None
-        cad = cls(order=order) if ordered else cls()
+        cad = cls(order=order, **ckw) if ordered else cls(**ckw)
         ref = []
     else:
         if not ctx.check(model_ok, "construct", "C18/%s/construct/accepted_%s" % (cname, "invalid_member"),
